@@ -75,6 +75,9 @@ pub unsafe trait Configuration: Any {
     /// (and, if so, how).
     const CYCLE_STRATEGY: CycleRecoveryStrategy;
 
+    /// Whether values of this function can be assigned by another query with `specify`.
+    const CAN_SPECIFY: bool = false;
+
     /// Invokes after a new result `new_value` has been computed for which an older memoized value
     /// existed `old_value`, or in fixpoint iteration. Returns true if the new value is equal to
     /// the older one.
